@@ -324,6 +324,10 @@ def main():
     for rec in records[:2] + records[-2:]:
         ck.sample({"id": rec["id"], "decl": rec["decl"], "events": [
             (e["ev"], e["mode"] or e["path"], e["ok"], e["out"][:60]) for e in rec["events"]]})
+    # the repository's own test-suite as a driver (harness/suite.py): its executions judged by TLC (Trace_Suite)
+    from .. import suite
+    for key_, clause_, rec_ in suite.stage(ck, "input", "C19"):
+        ck.violation(key_, clause_, rec_)
     for t in r.tagged("VIOL"):
         d, rec = meta[t[1]]
         e = rec["events"][t[3] - 1]
